@@ -29,6 +29,11 @@ REG_EVENTS = {'Poll', 'Unresponsive'}
 
 def check(run):
     R = run
+    R.rule('C07.shared', 'objects created once per class / per function definition (class-level attributes, parameter '
+           'defaults) are only read: no buffer, validator, poll object, header list or option dict is shared between '
+           'connections', 1)
+    from .common import shared_state
+    shared_state(R, 'C07.shared')
     R.rule('C07.labels', 'every yield of run() is labelled with the event classes it can carry', 8)
     R.rule('C07.monitor', 'product of run()\'s CFG with the monitor automaton: no forbidden label in any reachable '
                           'state, generator ends only after ConnectFail or Disconnected, no exception escapes', 4)
@@ -37,6 +42,11 @@ def check(run):
                         'feed stops when closed', 9)
     R.rule('C07.eof', 'an empty read always leaves the receive loop; the loop re-tests is_closed', 2)
     R.rule('C07.timeout', 'the close timeout fires whenever it is due (so iteration terminates)', 5)
+    from . import C17 as _C17
+    with R.as_rule('C07.gate'):
+        _C17.session(R)          # the _ready gate starts closed: every connect() runs on a newly built session
+    from .common import event_names
+    event_names(R, 'C07.timeout')        # a Ping is not taken for a Pong: the ping timeout can fire
     from .common import maybe_unbound
     maybe_unbound(R, 'C07.monitor')       # no UnboundLocalError can escape in place of an event
     labels = label_yields(R)
